@@ -18,7 +18,7 @@ PROP = "C20"
 ENGINE = "zonesim"
 LEVEL = "exploration"
 TIERS = {
-    "quick": {"runs": 16000, "budget_s": 75},
+    "quick": {"runs": 12000, "budget_s": 75},
     "thorough": {"runs": 600000, "budget_s": 1500},
 }
 DET_EVERY = 40
